@@ -36,6 +36,38 @@ def run(ctx):
             continue
         first_read = min(reads)
         found = False
+        # The tick edge is found semantically: the first branch after the read on one of whose edges the interval analysis
+        # knows the frame length to be 0 - whatever the test is spelt like (is_empty(), len() == 0, len() < 1, match 0 => ..).
+        from ..ranges import Ranges
+        R = Ranges(B)
+        rn = readname.rsplit('::', 1)[-1]
+
+        def is_frame_len(k_):
+            txt = str(k_)
+            return ('from_be_bytes' in txt and p == RECV2) or (isinstance(k_, tuple) and k_ and k_[0] == 'len' and rn in txt)
+        cands = []
+        for bb in sorted(B.live_blocks()):
+            if B.blocks[bb]['t']['k'] != 'switch':
+                continue
+            for s_ in B.succ(bb):
+                if any(is_frame_len(k_) and v_ == (0, 0) for k_, v_ in R.facts_at(s_).items()) and not any(is_frame_len(k_) and v_ == (0, 0) for k_, v_ in R.facts_at(bb).items()):
+                    cands.append((bb, s_))
+        cands = [c for c in cands if not any(o != c and B.block_dominates(o[0], c[0]) for o in cands)]
+        if cands:
+            found = True
+            bb, tick_edge = cands[0]
+            reach = B.reachable(tick_edge, removed_blocks=reads)
+            rets = [r for r in B.return_blocks() if r in reach]
+            inst = p.split('::')[-2]
+            if rets:
+                ctx.bad('C06.2-tick-skipped', inst, 'a zero-length frame (tick) can reach a return without another read: ticks are surfaced to the caller', ctx.where(B, bb),
+                        key='CFG:%s:tick-returns' % p)
+            elif any(r in B.reachable(tick_edge) for r in reads):
+                ctx.ok('C06.2-tick-skipped', inst, 'the edge on which the frame length is 0 goes back to the read', ctx.where(B, bb))
+            else:
+                ctx.bad('C06.2-tick-skipped', inst, 'tick edge does not lead back to a read', ctx.where(B, bb), key='CFG:%s:tick-dead-end' % p)
+        if found:
+            continue
         for bb in sorted(B.live_blocks()):
             sb = B.switch_bool_edges(bb)
             if not sb:
